@@ -1203,11 +1203,55 @@ def run_shard(ctx):
         ctx.event("grid_tuples_this_run", sum(1 for i in range(len(grid())) if i % ctx.nshards == ctx.shard))
         n = {"quick": 300, "thorough": 3200}[ctx.tier]
         run_hypothesis(ctx, drawn_cases(), lambda c, case: check_case(c, case, "C18.drawn"), max_examples=n)
+        # "every well-formed element is accepted", beyond the grid: whole problems generated well-formed by
+        # construction (every element class with its parameter grid, vf/spec.py) must build without an error
+        from .. import spec as S
+        m = {"quick": 120, "thorough": 1500}[ctx.tier]
+        for prof in WELLFORMED_PROFILES():
+            run_hypothesis(ctx, S.specs(prof), wellformed_spec_case, max_examples=m)
     finally:
         ps_base.active_problem = None
 
 
+def WELLFORMED_PROFILES():
+    from .. import spec as S
+    return [
+        S.profile(min_tasks=1, max_tasks=4, p_resources=75, task_constraints=(1, 4), optional_rules=(0, 2), resource_constraints=(0, 3), buffers=(0, 2),
+                  fol=(0, 2), optional_constraints=25, indicators=(0, 3), indicator_constraints=30, objectives=(0, 2), p_optional=40, p_cumulative=45),
+        S.profile(min_tasks=1, max_tasks=2, p_resources=90, task_constraints=(1, 3), optional_rules=(0, 1), resource_constraints=(1, 3), buffers=(0, 1),
+                  indicators=(1, 3), p_optional=30, p_cumulative=50, p_select=30),
+    ]
+
+
+def wellformed_spec_case(ctx, spec):
+    from .. import build as B, engine
+    ctx.evaluation()
+    try:
+        B.build(spec, 0, make_solver=False)
+    except B.BuildRejected as exc:
+        el = exc.element if isinstance(exc.element, dict) else {}
+        rule = f"rejected_wellformed.generated_spec.{exc.stage}.{el.get('type', '')}"
+        ctx.violation({"check": "C18.spec", "rule": rule, "spec": spec, "case": {"element": el, "stage": exc.stage},
+                       "observed": f"{type(exc.exc).__name__}: {exc.exc}", "signature": {"rule": rule}})
+        return
+    finally:
+        ps_base.active_problem = None
+    n_el = len(spec["constraints"]) + len(spec["indicators"]) + len(spec["objectives"]) + len(spec["assign"])
+    if n_el >= 3:
+        ctx.nontrivial_case({"wellformed_spec": spec})
+        ctx.event("wellformed_specs_nontrivial")
+
+
 def replay(record):
+    if record.get("check") == "C18.spec":
+        from .. import build as B
+        try:
+            B.build(record["spec"], 0, make_solver=False)
+        except B.BuildRejected as exc:
+            return True, f"well-formed generated problem rejected at {exc.stage}: {type(exc.exc).__name__}: {exc.exc}"
+        finally:
+            ps_base.active_problem = None
+        return False, "problem builds"
     case = record["case"]
     try:
         j, out, bad, observed = evaluate(case)
